@@ -26,6 +26,12 @@ type ZReaderObj struct {
 	shortUsed bool
 	tailErr   bool // stream ends with a checksum / unexpected-EOF error instead of clean EOF
 }
+// LimitObj models *io.LimitedReader (concrete limit).
+type LimitObj struct {
+	r Iface
+	n int64
+}
+
 type TeeObj struct {
 	r Iface
 	w Iface
@@ -285,6 +291,24 @@ func init() {
 		if n > 0 {
 			x.callMethod(t.w, "Write", nil, []Value{Slice{a: dst.a[:n]}})
 		}
+		return Tuple{x.intConst(int64(n)), err}
+	}
+	intrinsics["io.LimitReader"] = func(x *Exec, a []Value) Value {
+		n := a[1].(*Term)
+		lim := x.concInt(n, 0, 64, "io.LimitReader limit")
+		return Iface{t: errorType, v: &LimitObj{r: a[0].(Iface), n: lim}}
+	}
+	intrinsics["*io.LimitedReader.Read"] = func(x *Exec, a []Value) Value {
+		l := a[0].(*LimitObj)
+		dst := a[1].(Slice)
+		if l.n <= 0 {
+			return Tuple{x.intConst(0), x.errEOF()}
+		}
+		if int64(len(dst.a)) > l.n {
+			dst = Slice{a: dst.a[:l.n]}
+		}
+		n, err := x.readFrom(l.r, dst)
+		l.n -= int64(n)
 		return Tuple{x.intConst(int64(n)), err}
 	}
 	intrinsics["io.WriteString"] = func(x *Exec, a []Value) Value {
